@@ -2,12 +2,14 @@
 //! threads, processes, call histories) and of the scanner threads that execute its output.
 
 mod c15;
+mod c20;
 mod coord;
 mod gen;
 mod hist;
 mod histcheck;
 mod rng;
 mod seam;
+mod sexp;
 
 use histcheck::{HistProp, Tier};
 use std::path::Path;
@@ -30,6 +32,7 @@ static LOGGER: CountingLogger = CountingLogger;
 fn hist_prop(id: &str) -> Option<&'static HistProp> {
     match id {
         "C15" => Some(&c15::PROP),
+        "C20" => Some(&c20::PROP),
         _ => None,
     }
 }
